@@ -14,5 +14,5 @@ for l in open('/verif/properties.jsonl'):
         out.append({k: p[k] for k in ('id', 'title', 'statement', 'anchors') if k in p})
 open(WT + '/_benign/PROPERTIES.json', 'w').write(json.dumps(out, indent=1))
 PY
-sed "s#@WT@#$WT#g" /verif/tools/benign_task_template.md > $WT/_benign/TASK.md
+sed "s#@WT@#$WT#g" /verif/tools/${BENIGN_TEMPLATE:-benign_task_template.md} > $WT/_benign/TASK.md
 echo $WT
